@@ -4,7 +4,7 @@ from ref import pools, adaptor, ecdsa
 
 ID = "C14"
 LEVEL = "exploration"
-CONFIGS = {"quick": ["san", "mx_i64"], "thorough": ["san", "san_nv", "mx_i64", "mx_i128s"]}
+CONFIGS = {"quick": ["san", "san_nv", "mx_i64"], "thorough": ["san", "san_nv", "mx_i64", "mx_i128s"]}
 EXTRA_BUILDS = ["sg13", "sg199"]
 RULE = ("encrypt -> verify -> decrypt -> ECDSA verify -> recover pipelines over pool keys (1, n-1, ...) and messages (0, >= n), default/custom nonce "
         "functions with and without aux; adaptor_verify on honest 162-byte strings and their mutations: single-bit flips (all 1296 for some, sampled "
@@ -34,7 +34,7 @@ def off_curve_x(rng):
 def wl_pipeline(ctx, config):
     rng = ctx.rng
     nfull = 0
-    for it in range(ctx.n(320, 6000)):
+    for it in ctx.iters(320, 6000):
         d = pools.valid_seckey(rng, 0.3) if it % 7 else rng.choice((1, n - 1, 2, (n - 1) // 2)); sk = b32(d)
         y = pools.valid_seckey(rng, 0.3) if it % 5 else rng.choice((1, n - 1, 2)); dk = b32(y)
         msg = pools.msg32(rng, 0.4) if it % 9 else rng.choice((b32(0), b32(n), b32(2**256 - 1)))
@@ -121,7 +121,7 @@ def wl_pipeline(ctx, config):
 
 def wl_fail_paths(ctx, config):
     rng = ctx.rng
-    for it in range(ctx.n(80, 1500)):
+    for it in ctx.iters(80, 1500):
         d = rng.choice((0, n, n + 1, 2**256 - 1)) if it % 2 == 0 else pools.valid_seckey(rng); sk = b32(d)
         Y = mulG(rng.randrange(1, n)); Yo = pkobj(ctx, Y, config); msg = pools.msg32(rng)
         if Yo is None: continue
@@ -132,7 +132,7 @@ def wl_fail_paths(ctx, config):
         ctx.ev("adaptor_encrypt", "fail:%s" % ("invalid_key" if it % 2 == 0 else "noncefp_mode%d" % mode), True, sk, msg, mode)
         ctx.check(r.ret == 0 and r.b(1) == bytes(162), "adaptor_encrypt:failure:%s" % ("returned_1" if r.ret else "output_not_zero"), "sk=%s mode=%d %r" % (sk.hex(), mode, r), config)
     # random 162-byte strings and structured garbage
-    for it in range(ctx.n(200, 5000)):
+    for it in ctx.iters(200, 5000):
         X = mulG(rng.randrange(1, n)); Y = mulG(rng.randrange(1, n)); Xo = pkobj(ctx, X, config); Yo = pkobj(ctx, Y, config)
         if it % 2: a = pools.rbytes(rng, 162)
         else: a = ser33(mulG(rng.randrange(1, n))) + ser33(mulG(rng.randrange(1, n))) + b32(pools.scalar(rng)) + b32(pools.scalar(rng)) + b32(pools.scalar(rng))
@@ -141,7 +141,7 @@ def wl_fail_paths(ctx, config):
 def wl_chosen_sp(ctx, config):
     """adversarial prover choosing s' (small, boundary) by solving for the message: s'+n re-encodings become constructible"""
     rng = ctx.rng
-    for it in range(ctx.n(160, 4000)):
+    for it in ctx.iters(160, 4000):
         d = rng.randrange(1, n); y = rng.randrange(1, n); X = mulG(d); Y = mulG(y)
         sp = rng.choice((1, 2, n - 1, (n - 1) // 2, (n + 1) // 2)) if it % 3 == 0 else rng.randrange(1, 2**120)
         a, msg = adaptor.make(d, Y, rng.randrange(1, n), rng.randrange(1, n), sp)
@@ -185,7 +185,7 @@ def infinity_cases(rng):
 
 def wl_infinity(ctx, config):
     rng = ctx.rng
-    for it in range(ctx.n(40, 1500)):
+    for it in ctx.iters(40, 1500):
         for cls, a, X, msg, Y in infinity_cases(rng):
             Xo = pkobj(ctx, X, config); Yo = pkobj(ctx, Y, config)
             if Xo is None or Yo is None: continue
@@ -216,9 +216,9 @@ def wl_scripted_nonces(ctx, config):
 def run(ctx):
     from vlib import smallgroup
     smallgroup.run(ctx, 'adaptor', {'adaptor_sp_reenc': 'accepted', 'adaptor_dleq_s_reenc': 'accepted', 'adaptor_decrypt_sp_reenc': 'accepted'})
-    for i, config in enumerate(ctx.configs):
+    for i, config in enumerate(ctx.cfgs()):
         wl_pipeline(ctx, config)
-        if ctx.quick and i > 0: continue          # quick: the 32-bit-limb build runs the pipeline (with its recover / verify mutations) only
+        if ctx.quick and config == "mx_i64": continue          # quick: the 32-bit-limb build runs the pipeline (with its recover / verify mutations) only
         wl_chosen_sp(ctx, config)
         wl_infinity(ctx, config)
         wl_scripted_nonces(ctx, config)
